@@ -8,6 +8,7 @@ from werkzeug.test import EnvironBuilder, run_wsgi_app
 from harness.util import R, untraced
 
 LOG = []
+SEH = [False]
 
 
 def _wrapper_for(tag_holder):
@@ -54,6 +55,9 @@ def _wrapper_order(outer_i, emb_i, nroutes, with_emb):
         sub = Application([Route('/s', lambda: Response('sub'))], middlewares=emb)
         routes.append(('/emb%d' % k, sub))
     app = Application(routes, middlewares=outer)
+    if SEH[0]:
+        from clastic.errors import ErrorHandler
+        app.set_error_handler(ErrorHandler())         # documented: may be called after construction
     env = EnvironBuilder(path='/r0' if nroutes else ('/emb0/s' if with_emb else '/nothing')).get_environ()
     run_wsgi_app(app, env)
     # the embedding application's wrappers first, in list order, a unique type once ...
@@ -76,17 +80,20 @@ def _wrapper_order(outer_i, emb_i, nroutes, with_emb):
     return types_rest == want_types
 
 
-def ob_wrapper_order(outer_i: int, emb_i: int, nroutes: int, with_emb: int) -> bool:
+def ob_wrapper_order(outer_i: int, emb_i: int, nroutes: int, with_emb: int, seh: bool = False) -> bool:
     with untraced():
+        SEH[0] = bool(seh)
         return _wrapper_order(outer_i, emb_i, nroutes, with_emb)
 
 
-def tw_wrapper_order(outer_i: int, emb_i: int, nroutes: int, with_emb: int) -> bool:
+def tw_wrapper_order(outer_i: int, emb_i: int, nroutes: int, with_emb: int, seh: bool = False) -> bool:
     with untraced():
+        SEH[0] = bool(seh)
         return _wrapper_order(outer_i, emb_i, nroutes, with_emb) and len(LOG) >= 3
 
 
-def confirm_wrapper_order(outer_i, emb_i, nroutes, with_emb):
+def confirm_wrapper_order(outer_i, emb_i, nroutes, with_emb, seh=False):
+    SEH[0] = bool(seh)
     return not _wrapper_order(outer_i, emb_i, nroutes, with_emb)
 
 
@@ -271,9 +278,9 @@ def _files_released(file_i, ims_rel, method_i, via_route):
     d = tempfile.mkdtemp(prefix='verif_c13_')
     opened = []
     try:
-        name = ['a.txt', 'noext', 'b.bin'][file_i]
+        name = ['a.txt', 'noext', 'b.bin', 'empty.txt', 'emptynoext'][file_i]
         path = os.path.join(d, name)
-        open(path, 'wb').write(b'hello\x00' if file_i == 2 else b'hello')
+        open(path, 'wb').write(b'hello\x00' if file_i == 2 else (b'' if file_i >= 3 else b'hello'))
         os.utime(path, (1500000000, 1500000000))
         if via_route:
             app = Application([StaticFileRoute('/f', path)])
